@@ -44,6 +44,12 @@ def cases(draw):
     iters = st.one_of(st.sampled_from([1, 2, 3, 4, 5, 10]), st.sampled_from([200, 1000, 2000]),
                       st.sampled_from([200, 1000, 2000]), st.integers(3, 300))
     params = draw(gen.solver_params(recipe["n"], recipe["density"], iters, cheap=False))
+    if draw(st.integers(0, 9)) == 0:
+        # eps far below the spacing of doubles: the search runs into the float resolution of the curve coordinate,
+        # the method refuses the degenerate interval, Solve must still return (values as float or numpy scalars)
+        recipe, params = draw(gen.resolution_case())
+        recipe = dict(recipe, style={"holder": "same", "valtype": draw(st.sampled_from(["float", "np"]))})
+        return {"recipe": recipe, "params": params}
     case = {"recipe": recipe, "params": params}
     if draw(st.integers(0, 3)) == 0:
         # part of the budget is spent through DoGlobalIteration before Solve (never more than itersLimit, possibly
@@ -63,6 +69,7 @@ def body(case):
     p = case["params"]
     eps, limit, r = p["eps"], p["itersLimit"], p["r"]
     run = Run(case["recipe"], p)
+    run.line_guard = eps < 1e-12      # termination without evaluations is decided by an executed-line bound
     run.problem.max_calls = limit + 3
     pre = 0
     try:
